@@ -52,6 +52,19 @@ static inline vc_swide vc_sval(const bn_st *a) {
 /* The object is a layout-compatible PREFIX of ctx_t holding the error-handling state only: symbolic execution of the full
    944 KB ctx_t costs ~30 s per unit.  An access through core_get() to a member outside the prefix fails a pointer check. */
 struct vc_ctx_prefix { int code; sts_t *last; sts_t error; err_t number; char *reason[ERR_MAX]; int caught; };
+#ifdef VC_CTX_RAND
+/* the prefix, an untouched gap, and the random-generator state at its real offsets */
+#include <stddef.h>
+struct vc_ctx_rand {
+	int code; sts_t *last; sts_t error; err_t number; char *reason[ERR_MAX]; int caught;
+	unsigned char pad0[offsetof(ctx_t, rand) - (offsetof(ctx_t, caught) + sizeof(int))];
+	uint8_t rand[RLC_RAND_SIZE];
+	unsigned char pad1[offsetof(ctx_t, seeded) - offsetof(ctx_t, rand) - RLC_RAND_SIZE];
+	int seeded;
+	int counter;
+};
+#define VC_CTX_TYPE struct vc_ctx_rand
+#endif
 #ifndef VC_CTX_TYPE
 #define VC_CTX_TYPE struct vc_ctx_prefix
 #endif
